@@ -28,7 +28,7 @@ func AnyFamilyCmd(t *rapid.T, m *model.Model, keys []string) []string {
 // WriterCmd draws a command that (usually) stores data, for building datasets of all types.
 func WriterCmd(t *rapid.T, m *model.Model, keys []string) []string {
 	k := Key(t, keys, "wkey")
-	v := func(l string) string { return rapid.SampledFrom([]string{"v", "w", "abc", "10", "3.5", "", "x y", "héllo", "a\r\nb"}).Draw(t, l) }
+	v := func(l string) string { return rapid.SampledFrom([]string{"v", "w", "abc", "10", "3.5", "", "x y", "héllo", "a\r\nb", "px", "EX"}).Draw(t, l) }
 	mem := func(l string) string { return rapid.SampledFrom([]string{"m1", "m2", "m3", "a", "b", "10", ""}).Draw(t, l) }
 	switch rapid.IntRange(0, 15).Draw(t, "writer") {
 	case 0, 1:
